@@ -2,8 +2,9 @@ import Sudachi.Proofs.Edit
 /-!
 # C08 — Code-point offsets agree with byte offsets; the offset map is monotone and anchored
 
-Model: `EditM.resolve` (`edit.rs: resolve_edits`/`add_replace`), `EditM.commit`/`commitAll`
-(`with_editor` → `commit`, successive batches), `EditM.identFrom` (`start_build`), `EditM.origB2C`
+Model: `EditM.resolve` (`edit.rs: resolve_edits`/`add_replace`), `EditM.commitV`/`commitAllV`
+(`with_editor` → `commit`, successive batches; `lv : LenV` = which length guard the tree has: `running` = the
+pinned `commit`/`commitAll`, `final` = the repaired one — every theorem below holds for both), `EditM.identFrom` (`start_build`), `EditM.origB2C`
 (`fill_orig_b2c`), `EditM.c2b` (`build`).  Texts are byte lists; `isStart` marks first bytes of
 characters; a *character boundary* of a text is its end or the offset of a first byte (`BoOf`).
 `m2o[i]` is `valAt l i` (= `(snds l)[i]`, lemma `snds_getElem?`).
@@ -20,13 +21,13 @@ entry per byte plus one; it is non-decreasing; start ↦ start; end ↦ end; eve
 rewritten text is sent to a character boundary of the original. -/
 theorem m2o_inv (o : List Nat) (hne : o ≠ []) (h0 : BoOf o 0)
     (bs : List (List (Edit Nat))) (l : List (P Nat))
-    (hok : BatchesOk isStart (identFrom 0 o) bs) (h : commitAll (identFrom 0 o) bs = some l) :
+    (hok : BatchesOk isStart (identFrom 0 o) bs) (lv : LenV) (h : commitAllV lv (identFrom 0 o) bs = some l) :
     (snds l).length = (textOf l).length + 1 ∧
     Mono (snds l) ∧
     valAt l 0 = 0 ∧
     valAt l (textOf l).length = o.length ∧
     (∀ i (hi : i < l.length), isB isStart l[i] → BoOf o (valAt l i)) := by
-  have hi := commitAll_inv isStart (BoOf o) o.length h0 bs _ l (ident_inv o hne) hok h
+  have hi := commitAllV_inv lv isStart (BoOf o) o.length h0 bs _ l (ident_inv o hne) hok h
   exact ⟨inv_length hi, hi.mono, hi.first, inv_last hi, fun i hlt hb => inv_boundary hi i hlt hb⟩
 
 /-- **Unreplaced characters map to themselves**: after any admissible sequence of batches every
@@ -35,11 +36,11 @@ the original text with its own offset —, or the sentinel, or the first entry (
 deletion attaches to the first character), or was written by a replacement. -/
 theorem unreplaced_keep_offset (o : List Nat) (hne : o ≠ []) (h0 : BoOf o 0)
     (bs : List (List (Edit Nat))) (l : List (P Nat))
-    (hok : BatchesOk isStart (identFrom 0 o) bs) (h : commitAll (identFrom 0 o) bs = some l) :
+    (hok : BatchesOk isStart (identFrom 0 o) bs) (lv : LenV) (h : commitAllV lv (identFrom 0 o) bs = some l) :
     ∀ p ∈ l, (∃ hlt : p.2 < o.length, p.1 = some o[p.2]) ∨ p = (none, o.length) ∨ p.2 = 0 ∨
       FromRepl (identFrom 0 o) bs p := by
   intro p hp
-  rcases commitAll_mem isStart (BoOf o) o.length h0 bs _ l (ident_inv o hne) hok h p hp with h1 | h1 | h1
+  rcases commitAllV_mem lv isStart (BoOf o) o.length h0 bs _ l (ident_inv o hne) hok h p hp with h1 | h1 | h1
   · rcases ident_mem o p h1 with h2 | h2
     · exact Or.inr (Or.inl h2)
     · exact Or.inl h2
@@ -68,7 +69,9 @@ theorem c2b_boundaries (t : List Nat) (h0 : BoOf t 0) :
     Mono (c2b t) ∧ (∀ x ∈ c2b t, BoOf t x) ∧ (c2b t)[0]? = some 0 ∧ (c2b t)[nchars t]? = some t.length :=
   ⟨(c2b_spec t).1, (c2b_spec t).2, c2b_head t h0, c2b_last t⟩
 
-/-- the length guard of `commit`: a batch is rejected exactly when the running length exceeds 65535 -/
+/-- the length guard of `commit` in the pinned tree (variant `running`): a batch is rejected exactly when the
+running length exceeds 65535.  (For the repaired tree, variant `final`, the batch is rejected exactly when the
+length of the rewritten text exceeds 65535: `C03.commit_final_too_long_iff`.) -/
 theorem commit_too_long (l : List (P Nat)) (es : List (Edit Nat)) (hne : es ≠ []) :
     commit l es = none ↔ lenOk REALLY_MAX_LENGTH ((l.length : Int) - 1) es = false := by
   unfold commit
